@@ -74,7 +74,7 @@ class World:
     def __init__(self, ctx, bp=8, qp=2, fee="pctmin", liq="inf", lend="none", npairs=1, props=(), subscribe=True,
                  namounts=2, min_interest="0", margin_req="0.5", vols=None, init=None, sym_amount=False,
                  pct=None, min_fee=None, vol_limit="25", impact="10", closes=None, merge_minmax=True,
-                 amount_hi=10 ** 10):
+                 amount_hi=10 ** 10, lend_quote="USD", req_overrides=None):
         self.ctx, self.bp, self.qp, self.fee, self.liq, self.lend = ctx, bp, qp, fee, liq, lend
         self.props = set(props)
         self.sym_amount = sym_amount
@@ -111,6 +111,8 @@ class World:
                 interest_symbol="USD", interest_percentage=Decimal("7"), interest_period=DAY,
                 min_interest=Decimal(min_interest),
                 margin_requirement=margin_req if isinstance(margin_req, Decimal) else Decimal(margin_req))
+            self.lend_quote = lend_quote
+            self.req_by_symbol = {}
             if lend == "margin_base_only":
                 # lending conditions exist for the base symbols only: borrowing the quote symbol fails with a plain
                 # Error (not NotEnoughBalance) - a rejection coming from a different internal step
@@ -118,7 +120,12 @@ class World:
                 for p_ in self.pairs:
                     ls.set_conditions(p_.base_symbol, self.cond)
             else:
-                ls = margin.MarginLoans("USD", default_conditions=self.cond)
+                ls = margin.MarginLoans(lend_quote, default_conditions=self.cond)
+                for sym_, req_ in (req_overrides or {}).items():
+                    # per-symbol lending conditions override the default margin requirement
+                    import dataclasses as _dc
+                    ls.set_conditions(sym_, _dc.replace(self.cond, margin_requirement=Decimal(req_)))
+                    self.req_by_symbol[sym_] = Decimal(req_)
         self.margin_req = margin_req if isinstance(margin_req, Decimal) else Decimal(margin_req)
         self.e = bex.Exchange(self.d, dict(self.init), liquidity_strategy_factory=lf, fee_strategy=fs,
                               default_pair_info=PairInfo(bp, qp), lending_strategy=ls)
